@@ -462,6 +462,9 @@ def run(ctx):
     rule_hash_after_accept(ctx, r7)
     from .shared import rule_config_switch
     rule_config_switch(ctx, r7, "use_spec_hashes", "get_spec_hashes chooses between the file-backed and the no-op hash store")
+    from .evalhelpers import cli_spec_switch_witness, cached_witness as _cw, report_witness as _rw
+    _rw(r7, "src/gwf/cli.py::main::spec-switch", "src/gwf/cli.py:1", _cw(ctx, "cli-spec-switch", cli_spec_switch_witness),
+        "the hash store the commands get follows use_spec_hashes of the project configuration (3 settings x 2 environments)")
     # "unchanged since it was last submitted": the record made at submission must survive however that invocation ended
     from .persist import rule_exit_persists, rule_close_writes
     rule_exit_persists(ctx, r7, ("spec hashes",))
